@@ -443,6 +443,10 @@ def check(pid, tier):
                     if rc == 0:
                         sources.append(("generated seed=%d tier=%s (extra: anchored source changed)" % (seed + 1000 * extra, tier), xp))
                 for label, path in sources:
+                    # the extra seed rounds only buy changed code a deeper search: pointless once a
+                    # concrete failing input is in hand (and a slow mutant would multiply the wall time)
+                    if found_failing_input and "(extra:" in label:
+                        continue
                     cases = case_lines(path)
                     if not cases:
                         continue
